@@ -383,9 +383,10 @@ fn main() {
                     if let val::Val::L(l) = &v {
                         if let Some(val::Val::L(inp)) = l.get(0) {
                             let header = inp.get(0).and_then(|h| h.as_opt()).flatten().and_then(|h| h.as_b().cloned());
-                            let c = negot::NegotCase { header, ast: None, class: "replay".into() };
-                            // keep the original hint
-                            let obs = negot::run_should_gzip(&c.header);
+                            let c = negot::NegotCase { header, ast: None, more: vec![], class: "replay".into() };
+                            // keep the original hint; further header lines are replayed from their bytes
+                            let more: Vec<Vec<u8>> = inp.get(2).and_then(|m| m.as_list()).map(|ls| ls.iter().filter_map(|l| l.as_list().and_then(|x| x.first()).and_then(|b| b.as_b().cloned())).collect()).unwrap_or_default();
+                            let obs = negot::run_should_gzip_lines(&c.header, &more);
                             let nv = val::Val::L(vec![val::Val::L(inp.clone()), val::Val::N(obs)]);
                             writeln!(out, "negot {} {}", id, nv.to_string()).unwrap();
                         }
